@@ -69,8 +69,33 @@ def run(repo, rep, tier):
     if len(regs) < 2 or not wraps:
         raise AnalysisError("visit_element: registration sites / ON_ERROR "
                             "wrap not found")
+    rewraps = [n.lineno for n in ast.walk(ve.node) if isinstance(n, ast.Assign)
+               and src(n.targets[0]) == "slot" and isinstance(n.value, ast.Call)
+               and src(n.value.func) == "wrap" and any(
+                   src(a) == "ON_ERROR" for a in n.value.args)
+               and src(n.value.args[0]) == "slot"]
     for what, n in regs:
-        covered = any(w < n.lineno for w in wraps) or "ON_ERROR" in src(n)
+        if what == "define-macro" and "ON_ERROR" in src(n):
+            # the element itself is then rendered through the macro: the
+            # wrapper must not be applied a second time around the reference
+            # (a failing fallback expression would reach the handler twice)
+            blk = getattr(n, "_parent", None)
+            body = None
+            for fld in ("body", "orelse", "finalbody"):
+                b_ = getattr(blk, fld, None)
+                if isinstance(b_, list) and n in b_:
+                    body = b_
+            later = body[body.index(n) + 1:] if body else []
+            off = any(isinstance(x, ast.Assign) and
+                      src(x.targets[0]) == "ON_ERROR" and
+                      src(x.value) == "skip" for x in later)
+            rep.check(off, "R13.3", ve.qualname, "after the macro body was "
+                      "registered with the on-error wrapper, the wrapper is "
+                      "switched off for the reference that replaces the "
+                      "element (one handler per failure)",
+                      construct="macro-not-wrapped-twice",
+                      where=L.where(ve, n.lineno))
+        covered = any(w < n.lineno for w in rewraps) or "ON_ERROR" in src(n)
         rep.check(covered, "R13.3", ve.qualname, "the node registered for "
                   "%s carries the element's on-error wrapper" % what,
                   construct="side-door:" + what, where=L.where(ve, n.lineno),
@@ -265,6 +290,21 @@ def run(repo, rep, tier):
     vfunc = repo.func(vis)
     vwhere = "%s:%d" % (vfunc.module.relpath, vfunc.node.lineno)
     top = ve.value
+    # a define-macro element returns a reference to its macro; the macro
+    # body in the table carries the wrapper (side-door:define-macro below)
+    dm = "has ns[(METAL, 'define-macro')]"
+    if L.decides_on(top, dm):
+        ref = L.branch(top, dm, True)
+        rep.check(not any(isinstance(w, A.NodeV) and w.kind == "OnError"
+                          for w in A.walk(ref)) and any(
+                              isinstance(w, A.NodeV)
+                              and w.kind == "UseInternalMacro"
+                              for w in A.walk(ref)), "R13.3",
+                  vfunc.qualname, "a define-macro element is rendered "
+                  "through its macro (whose body carries the on-error "
+                  "wrapper), not wrapped a second time",
+                  construct="macro-not-wrapped-twice", where=vwhere)
+        top = L.branch(top, dm, False)
     onerr = None
     if isinstance(top, A.Alt):
         for br, other in ((top.a, top.b), (top.b, top.a)):
